@@ -123,7 +123,12 @@ template <class Search, class VocabularyT> void GenericModel<Search, VocabularyT
       assert(config.unknown_missing != THROW_UP);
       // Default probabilities for unknown.
       search_.UnknownUnigram().backoff = 0.0;
+      // The probing searches keep "extends left" in the sign bit of prob, and n-grams may end in the
+      // literal <unk> even though there is no <unk> unigram: keep the mark the builder made.
+      const bool extends_left = (kModelType == PROBING || kModelType == REST_PROBING) &&
+        !std::signbit(search_.UnknownUnigram().prob);
       search_.UnknownUnigram().prob = config.unknown_missing_logprob;
+      if (extends_left) util::UnsetSign(search_.UnknownUnigram().prob);
     }
     backing_.FinishFile(config, kModelType, kVersion, counts);
   } catch (util::Exception &e) {
